@@ -525,6 +525,15 @@ pub fn format_block(ctx: &Context, block: &Block, shape: Shape) -> Block {
         ctx = ctx.check_toggle_formatting(stmt);
 
         let shape = shape.reset();
+
+        // A statement which is ignored or outside of the formatting range must be left untouched,
+        // including its leading newlines and its semicolon
+        if !matches!(ctx.should_format_node(stmt), FormatNode::Normal) {
+            found_first_stmt = true;
+            formatted_statements.push((format_stmt(&ctx, stmt, shape), semi.to_owned()));
+            continue;
+        }
+
         let mut stmt = format_stmt(&ctx, stmt, shape);
 
         // If this is the first stmt, then remove any leading newlines
@@ -593,6 +602,17 @@ pub fn format_block(ctx: &Context, block: &Block, shape: Shape) -> Block {
             ctx = ctx.check_toggle_formatting(last_stmt);
 
             let shape = shape.reset();
+
+            // Similarly, an ignored / out of range last statement keeps its semicolon
+            if !matches!(ctx.should_format_node(last_stmt), FormatNode::Normal) {
+                return Block::new()
+                    .with_stmts(formatted_statements)
+                    .with_last_stmt(Some((
+                        format_last_stmt(&ctx, last_stmt, shape),
+                        semi.to_owned(),
+                    )));
+            }
+
             let mut last_stmt = format_last_stmt(&ctx, last_stmt, shape);
             // If this is the first stmt, then remove any leading newlines
             if !found_first_stmt && matches!(ctx.should_format_node(&last_stmt), FormatNode::Normal)
